@@ -66,15 +66,26 @@ def r1_limits(ctx):
     prog = ctx.prog
     # ---- memory cache -------------------------------------------------------------------------------------
     c = CACHES["memory"]
-    tb = prog.find(self_ty=r"\b%s\b" % c["trigger"][0], item=c["trigger"][1], closure=False)
-    sb = prog.find(self_ty=r"\b%s\b" % c["sizer"][0], item=c["sizer"][1], closure=False)
-    if ctx.anchor(rule, tb, "MemoryCache::needs_eviction") and ctx.anchor(rule, sb, "MemoryCache::perform_eviction"):
+    # by role, not by name (a rename of the private helpers must not matter): the TRIGGER is the bool method of MemoryCache whose verdict reads
+    # config limits; EVICTORS are the methods with an integer count parameter that remove from the backing map; the SIZER is the method that
+    # consults the trigger and calls evictors
+    meths = [m for m in prog.find(self_ty=r"\b%s\b" % c["type"], closure=False) if re.search(c["file"], m.file or "") and not m.expn]
+    tb = [m for m in meths if (m.local_ty(0) or "") == "bool" and cfg_fields(Slice(m, list(return_holders(m)), transparent=True))]
+    evictors = set()
+    for m in meths:
+        has_count = any(re.match(r"^(usize|u32|u64)$", m.local_ty(k) or "") for k in range(2, m.argc + 1))
+        fam_ = [m] + [prog.bodies[ch] for ch in prog.children.get(m.id, []) if ch in prog.bodies]
+        if has_count and any(op.op in ("remove", "remove_if") for fb in fam_ for op in map_ops(fb, c["map"])):
+            evictors.add(m.id)
+    sb = [m for m in meths if any(x.id in evictors for x in m.calls) and any(x.id in {t_.id for t_ in tb} for x in m.calls) and m.id not in evictors]
+    if ctx.anchor(rule, tb, "the eviction trigger of MemoryCache (a bool method whose verdict reads config limits)") and \
+            ctx.anchor(rule, sb, "the eviction sizer of MemoryCache (consults the trigger, calls the evictors)"):
         t, s = tb[0], sb[0]
         ctx.saw(t)
         ctx.saw(s)
         tsl = Slice(t, list(return_holders(t)), transparent=True)
         trig = cfg_fields(tsl) | closure_fields(ctx, t, tsl)
-        ev = s.calls_matching(c["evictor_pat"])
+        ev = [x for x in s.calls if x.id in evictors and x.bb in s.live_blocks()]
         sized = set()
         clamp = []
         n_count_args = 0
